@@ -67,6 +67,14 @@ scen("C11", "journal", "message-line-over-64k", INIT + [w("a", "1"), g("add", "a
      "reflog and reset HEAD@{n} failed with 'token too long' after a commit with a first message line over 64 KiB")
 scen("C20", "config", "value-over-64k", [g("init"), g("config", "user.name", "L" + "n" * 70000 + " end"), g("config", "user.email", "a@example.com"), g("config", "core.x", "1")],
      "a value over 64 KiB silently ended the reading of the configuration; the next config call dropped it")
+scen("C17", "ignore", "entry-with-invalid-utf8-name", INIT + [{"op": "write", "path": ".goitignore", "data": base64.b64encode(b"r\xe9sum\xe9/\n").decode()},
+     {"op": "write", "path": "\x00b64:" + base64.b64encode(b"r\xe9sum\xe9/f").decode(), "data": base64.b64encode(b"x").decode()}, w("g", "y"), g("status"), g("add", "."), g("status")],
+     "an ignore entry that is not valid UTF-8 made status and add panic in regexp.MustCompile")
+scen("C13", "worktree", "blank-line-in-ignore-file", INIT + [w("first.txt", "1"), g("add", "first.txt"), g("commit", "-m", "first"), w(".goitignore", "build/\n\n*.log\n"),
+     w("g", "y"), w("build/o", "z"), w("x.log", "l"), g("status")],
+     "a blank line in .goitignore hid every untracked file")
+scen("C17", "ignore", "blank-line-in-ignore-file", INIT + [w(".goitignore", "build/\n\n*.log\n"), w("g", "y"), w("build/o", "z"), w("d/x.log", "l"), w("d/k", "k"), g("add", "."), g("add", "d"), g("status")],
+     "a blank line in .goitignore made add skip every path")
 print("pins written")
 
 # ---- C15 / C16 pins: points are selected by operation class of the fault-free run (at_op)
